@@ -145,6 +145,10 @@ pub struct Doc {
     /// Markdown: blocks are closed with a fence one backtick longer than the opening one
     #[serde(default)]
     pub long_closing_fence: bool,
+    /// Markdown: this many blank lines in front of the second test case (a document in which
+    /// test cases sit beyond line 65 536)
+    #[serde(default)]
+    pub pad_lines: usize,
     /// the document cannot be read: "dangling" = a symbolic link to nowhere, "not-utf8" = bytes
     /// that are not text (`raw` is set as well: such a document makes the run end with 1)
     #[serde(default, skip_serializing_if = "Option::is_none")]
